@@ -17,6 +17,57 @@ theorem store_string_group (arr : Arr) (nz : Nat) (exts : List Nat) (s g : Strin
   simp only [hg, hr, hu]
   cases maskOf arr nz exts [g] <;> rfl
 
+/-- what `interpretString` does for a `uniform` request with one count `n` -/
+theorem uniform_request_lemma (arr : Arr) (nz : Nat) (exts : List Nat) (s : String) (choice : List Nat)
+    (mask0 : List Bool) (n : Nat)
+    (hm : (match firstGroup (lower s) with
+            | some g => maskOf arr nz exts [g]
+            | none => pure (List.replicate exts.length true)) = .ok mask0)
+    (hr : hasSub "random".toList (lower s) = false) (hu : hasSub "uniform".toList (lower s) = true)
+    (hn : digitRuns (lower s) none = [n]) (hn0 : 0 < n) (hc : 0 < (whereTrue mask0).length) :
+    interpretString arr nz exts s choice
+      = .ok (maskFromIdx exts.length (uniformPick (whereTrue mask0) n), false) := by
+  unfold interpretString
+  simp only [hr, hu, hn]
+  have h1 : ¬ n = 0 := by omega
+  have h2 : ¬ (whereTrue mask0).length = 0 := by omega
+  cases hfg : firstGroup (lower s) with
+  | none =>
+    rw [hfg] at hm
+    simp only [pure, Except.pure, Except.ok.injEq] at hm
+    subst hm
+    simp [bind, Except.bind, pure, Except.pure, h1, h2]
+  | some g =>
+    rw [hfg] at hm
+    simp only at hm
+    simp [hm, bind, Except.bind, pure, Except.pure, h1, h2]
+
+/-- what `interpretString` does for a `random` request with one count `n` -/
+theorem random_request_lemma (arr : Arr) (nz : Nat) (exts : List Nat) (s : String) (choice : List Nat)
+    (mask0 : List Bool) (n : Nat)
+    (hm : (match firstGroup (lower s) with
+            | some g => maskOf arr nz exts [g]
+            | none => pure (List.replicate exts.length true)) = .ok mask0)
+    (hr : hasSub "random".toList (lower s) = true)
+    (hn : digitRuns (lower s) none = [n]) :
+    interpretString arr nz exts s choice
+      = if n > (whereTrue mask0).length then .error "ValueError"
+        else .ok (maskFromIdx exts.length choice, true) := by
+  unfold interpretString
+  simp only [hr, hn]
+  cases hfg : firstGroup (lower s) with
+  | none =>
+    rw [hfg] at hm
+    simp only [pure, Except.pure, Except.ok.injEq] at hm
+    subst hm
+    by_cases h : n > (whereTrue (List.replicate exts.length true)).length <;>
+      simp [bind, Except.bind, pure, Except.pure, h, throw, throwThe, MonadExceptOf.throw]
+  | some g =>
+    rw [hfg] at hm
+    simp only at hm
+    by_cases h : n > (whereTrue mask0).length <;>
+      simp [hm, bind, Except.bind, pure, Except.pure, h, throw, throwThe, MonadExceptOf.throw]
+
 /-! ### `uniform`: stride arithmetic -/
 
 theorem ceilDiv_pos {a b : Nat} (ha : 0 < a) (hb : 0 < b) : 0 < ceilDiv a b := by
@@ -163,5 +214,9 @@ theorem pick_all (v : List α) : pick (List.replicate v.length true) v = v := by
   | cons a v ih => rw [List.length_cons, List.replicate_succ, pick_cons]; simp [ih]
 
 end pick
+
+theorem mem_whereTrue {m : List Bool} {i : Nat} (h : i ∈ whereTrue m) : m.getD i false = true := by
+  unfold whereTrue at h
+  exact (List.mem_filter.mp h).2
 
 end Snow.Store
